@@ -109,7 +109,7 @@ theorem neighbors_world (w : World) (F : Nat → LId → Option VId → Bool) (v
       (M.neighbors w F v dir unk filt fault).1 =
         { w with cache := upd w.cache v ((⟨dir, unk, filt⟩, ans) :: w.cache v) } := by
   simp only [M.neighbors]
-  cases hl : (if w.caching then M.cacheLookup ⟨dir, unk, filt⟩ (w.cache v) else none) with
+  cases hl : (if (w.caching && !M.unhashable filt) = true then M.cacheLookup ⟨dir, unk, filt⟩ (w.cache v) else none) with
   | some a => exact Or.inl rfl
   | none =>
     simp only []
@@ -117,7 +117,7 @@ theorem neighbors_world (w : World) (F : Nat → LId → Option VId → Bool) (v
     | error e => exact Or.inl rfl
     | ok ans =>
       simp only []
-      cases hc : w.caching with
+      cases hc : (w.caching && !M.unhashable filt) with
       | false => exact Or.inl rfl
       | true =>
         exact Or.inr ⟨ans, nbLoop_nofault w F v dir unk filt fault _ _ _ _ hn, rfl⟩
@@ -145,10 +145,10 @@ theorem neighbors_answer (w : World) (F : Nat → LId → Option VId → Bool) (
     (filt : Option Nat) (h : CacheGood F w) :
     (M.neighbors w F v dir unk filt none).2 = M.neighborsPure w F v dir unk filt := by
   simp only [M.neighbors]
-  cases hl : (if w.caching then M.cacheLookup ⟨dir, unk, filt⟩ (w.cache v) else none) with
+  cases hl : (if (w.caching && !M.unhashable filt) = true then M.cacheLookup ⟨dir, unk, filt⟩ (w.cache v) else none) with
   | some a =>
     simp only []
-    cases hc : w.caching with
+    cases hc : (w.caching && !M.unhashable filt) with
     | false => simp [hc] at hl
     | true =>
       simp only [hc, if_true] at hl
